@@ -294,7 +294,7 @@ def shard_long_history(sh):
     mon = SamplerMonitor(sh, cr)
     real = mon.real
     base = [('feature_%d' % i, 'label') for i in range(4)]
-    n_batches = 2 ** 16 + 6
+    n_batches = 2 ** 16          # exactly: every veteran is 65536 evaluations ahead of a newcomer
     args_all = pipe.make_args(combination_number_upper_bound=len(base))
     # the bulk of the history goes through the real sampler without the (slower) monitor; every 4096th call is monitored
     for b in range(n_batches):
@@ -304,9 +304,11 @@ def shard_long_history(sh):
             real(list(base), args_all)
             mon.selections.update(base)
     late = ('MULTIEX-tags-rare_value', 'label')
-    cand = base[:2] + [late] + base[2:]
+    cand = base + [late]                  # the newcomer comes last in list order
     for cap in (1, 1, 2, 3):
         mon(list(cand), pipe.make_args(combination_number_upper_bound=cap))
+    late2 = ('SUBFEATURE-x&y', 'label')
+    cand = base[:1] + [late2] + base[1:] + [late]
     # a second regime: counts far apart by more than 2^16 within one list
     for cap in (1, 4, 5):
         mon(list(cand), pipe.make_args(combination_number_upper_bound=cap))
